@@ -10,6 +10,7 @@ NOTE = ("Trusted: numpy's generic machinery behaves on object arrays as on float
         "Python bodies (witness concordance replays solver witnesses on the JIT code); contract stubs / UF lemma "
         "instances named in the evidence are true of the real routines; z3/cvc5. Float rounding is outside the claim.")
 CLAIMED = {
+    'C10': ('4/C10', 'symbolic execution of TaurexChemistry/AutoChemistry and the gas-profile classes (symbolic abundances, ratios, pressures, data-availability selectors) + z3'),
     'C08': ('4/C08', 'symbolic execution of the prior classes, parse_priors/create_prior (token literal stub) and compile_params defaults + z3 with UF ppf/log10/exp10'),
     'C18': ('4/C18', 'symbolic execution of OnlineVariance + taurex.mpi over a serialising communicator double, rank assignment as symbolic selectors + z3 nlsat'),
     'C04': ('4/C04', 'symbolic execution of InterpolatingOpacity (real loader on stubbed pickle) over symbolic T,P,grids,table + z3/nlsat with UF log10/exp/ln lemma instances'),
